@@ -598,12 +598,17 @@ func lRunPath(c *lchain, p lpath, r *core.Result, verbose bool) (trace []string,
 	t2 := time.Now()
 	defer func() { lTimes["events"] += time.Since(t2) }()
 	restarted := false
-	report := func(h int, s uint32, what, diag, text string) {
+	report := func(h int, s uint32, what, diag, text string, minerStep bool) {
+		// (a miner life whose head is on a sibling fork receives the main block from the wire: that step is a validator's)
+		mode := "validator"
+		if minerStep {
+			mode = "miner"
+		}
 		if p.Kind != "stable-pointer" {
 			// is the extra variable needed? The same node life without restarts, siblings and twins differs from the
 			// reference node in the position of the stable pointer only: if it fails in the same way at the same
 			// block, the failure is reported there (under its own fingerprint), not here.
-			_, vs2 := lRunPath(c, lpath{Kind: "stable-pointer", Script: stripScript(p.Script), Miner: p.Miner}, core.NewResult(prop, "exploration"), false)
+			_, vs2 := lRunPath(c, lpath{Kind: "stable-pointer", Script: stripScript(p.Script), Miner: minerStep}, core.NewResult(prop, "exploration"), false)
 			for _, v := range vs2 {
 				if strings.Contains(v.Fingerprint, "/"+what+"/"+diag+"/height="+lHeightKind(uint32(h))+"/") {
 					r.Add("L_failures_explained_by_the_stable_pointer_alone(reported there)", 1)
@@ -704,7 +709,7 @@ func lRunPath(c *lchain, p lpath, r *core.Result, verbose bool) (trace []string,
 					f, detail := lDiff(c.state[h], got)
 					hd := lHeaderDiff(b, blk)
 					say("%-6s miner: MINED ANOTHER BLOCK %s (reference %s): %s %s\n%s", e, blk.Hash().Prefix(), b.Hash().Prefix(), hd, f, detail)
-					report(h, s, "miners-differ", hd+":"+f, fmt.Sprintf("two honest miners that differ only in node-local state mine different blocks from the same parent, header choices and transaction list: %s differ, account data: %s\n%s", hd, f, detail))
+					report(h, s, "miners-differ", hd+":"+f, fmt.Sprintf("two honest miners that differ only in node-local state mine different blocks from the same parent, header choices and transaction list: %s differ, account data: %s\n%s", hd, f, detail), true)
 					return
 				} else {
 					say("%-6s miner: mined the reference block %s (stable=%d)", e, b.Hash().Prefix(), s)
@@ -715,13 +720,13 @@ func lRunPath(c *lchain, p lpath, r *core.Result, verbose bool) (trace []string,
 			if err != nil {
 				diag, detail := n.why(c, b)
 				say("%-6s REJECTED (%v) stable=%d: %s\n%s", e, err, s, diag, detail)
-				report(h, s, "honest-block-rejected", diag, fmt.Sprintf("the node rejects the block an honest miner produced (%v): %s\n%s", err, diag, detail))
+				report(h, s, "honest-block-rejected", diag, fmt.Sprintf("the node rejects the block an honest miner produced (%v): %s\n%s", err, diag, detail), false)
 				return
 			}
 			got := lDump(n, b.Hash(), lAddrsOf(b))
 			if f, detail := lDiff(c.state[h], got); f != "" {
 				say("%-6s accepted, STATE DIFFERS: %s\n%s", e, f, detail)
-				report(h, s, "state-differs", f, fmt.Sprintf("the node accepted the block but its account data differs from the miner's: %s\n%s", f, detail))
+				report(h, s, "state-differs", f, fmt.Sprintf("the node accepted the block but its account data differs from the miner's: %s\n%s", f, detail), false)
 				return
 			}
 			r.Outcome(fmt.Sprintf("L/%s/txs=%d/logs=%d/unstable-ancestors=%d", hk, len(b.Txs), len(b.ChangeLogs), h-1-int(s)))
